@@ -54,6 +54,7 @@ class Ctx:
         self.rule = ""
         self.exhaustive = False
         self.extra = {}
+        self.drive_env = {}      # merged trace file -> extra environment its drivers ran under
         self.set_known(pid)
 
     def set_known(self, pid):
@@ -149,6 +150,7 @@ class Ctx:
             if p.returncode != 0:
                 raise MachineryError(f"driver {driver} failed:\n{out[-3000:]}")
         merged = d / "trace.ndjson"
+        self.drive_env[str(merged)] = env or {}
         with open(merged, "w") as g:
             for i in range(len(chunks)):
                 g.write((d / f"out{i}.ndjson").read_text())
@@ -194,7 +196,7 @@ class Ctx:
                 what = fail or ("unlisted-deviation:" + ",".join(sorted(known - set(self.known))))
                 rp = REPLAYS / f"{self.pid}-{len(self.violations) + 1}.json"
                 rp.write_text(json.dumps({"property": self.pid, "verdict": what, "event": n, "driver": driver, "opts": opts,
-                                          "sparse": sparse,
+                                          "sparse": sparse, "env": self.drive_env.get(str(trace_file), {}),
                                           "case": (cases_by_id or {}).get(i), "history": hist[i],
                                           "expected": ex.get(i, ""), "eps": eps, "module": module}, indent=1))
                 self.violations.append((what, str(rp)))
